@@ -260,12 +260,43 @@ func runChan(t *testing.T, capacity int, acts []chAct) (run *chRun, pw, pr []int
 			run.steps = append(run.steps, fmt.Sprintf("([%s], mkChObs %s %s %s)", a.coq(), coqList(evs), coqInts(pw), coqInts(pr)))
 			run.obsDesc = append(run.obsDesc, fmt.Sprintf("%s pw=%v pr=%v", strings.Join(evs, ","), pw, pr))
 		}
-		// clean up: cancel whatever is still blocked
+		// clean up: cancel whatever is still blocked. A call that ignores its context would keep the scenario from
+		// ever being emitted (and judged: reason 3 is about exactly such calls), so what is still parked after the
+		// cancellations is released the other way: parked Writes by draining the channel, parked Reads by closing it.
 		for _, c := range run.writes {
 			c.cancel()
 		}
 		for _, c := range run.reads {
 			c.cancel()
+		}
+		synctest.Wait()
+		for round := 0; round < 64; round++ {
+			run.mu.Lock()
+			stuckW, stuckR := 0, 0
+			for _, c := range run.writes {
+				if !c.done {
+					stuckW++
+				}
+			}
+			for _, c := range run.reads {
+				if !c.done {
+					stuckR++
+				}
+			}
+			run.mu.Unlock()
+			if stuckW == 0 && stuckR == 0 {
+				break
+			}
+			if stuckW > 0 {
+				select {
+				case <-ch:
+				default:
+				}
+			} else if !run.closed {
+				close(ch)
+				run.closed = true
+			}
+			synctest.Wait()
 		}
 		wg.Wait()
 	})
